@@ -16,6 +16,7 @@ from .ring import LP, co
 
 ASSUME: list = []  # (LP, op)   meaning  LP op 0
 COLLECT = None  # when a list: undecided `< 0` tests are collected as precondition-schema instances
+WITNESS = None  # optional {variable generator: rational}: a point claimed to satisfy ASSUME (checked exactly by cover())
 TIMEOUT_MS = 5000
 LOG: list = []  # (description, verdict, backend, seconds)
 STATS = {"z3_calls": 0, "z3_time": 0.0, "syntactic": 0, "structural": 0}
@@ -30,8 +31,9 @@ def reset():
     LOG.clear()
     _zv.clear()
     _exp_cache.clear()
-    global COLLECT
+    global COLLECT, WITNESS
     COLLECT = None
+    WITNESS = None
 
 
 def assume(p, op):
@@ -265,10 +267,33 @@ def COLLECT_POLICY(p, op):
     return {"<": False, "<=": False, ">": True, ">=": True}[op]
 
 
+def _witness_cover():
+    """exact evaluation of every (polynomial) assumption at the declared witness point; None if no
+    witness is declared, an assumption contains atoms, or the point does not satisfy all of them"""
+    if not WITNESS:
+        return None
+    env = {(ring.gen_of(k) if isinstance(k, LP) else k): Fraction(v) for k, v in WITNESS.items()}
+    for q, o in ASSUME:
+        v = Fraction(0)
+        for m, c in q.t.items():
+            t = Fraction(c)
+            for g, e in m:
+                if g not in env or (e < 0 and env[g] == 0):
+                    return None
+                t *= env[g] ** e
+            v += t
+        if not {"<": v < 0, ">": v > 0, "<=": v <= 0, ">=": v >= 0, "!=": v != 0, "==": v == 0}[o]:
+            return None
+    return f"witness point satisfies all {len(ASSUME)} assumptions (exact rational evaluation)"
+
+
 def cover():
     """vacuity guard: the assumption set is satisfiable (returns model string or None)"""
     if not ASSUME:
         return "no assumptions"
+    w = _witness_cover()
+    if w is not None:
+        return w
     gens = set()
     for q, _ in ASSUME:
         gens |= q.gens()
